@@ -458,9 +458,12 @@ class ScaledInteger(HasUnit, DataType):
     def validate(self, value, previous=None):
         # convert
         result = self(value)
+        low, high = self(self.min), self(self.max)
+        if low <= result <= high:
+            return result
         if self.min - self.scale < value < self.max + self.scale:
             # silently clamp when outside by not more than self.scale
-            return clamp(self(self.min), result, self(self.max))
+            return clamp(low, result, high)
         raise RangeError(f'{value:.14g} must be between between {self.min:g} and {self.max:g}')
 
     def __repr__(self):
